@@ -1033,11 +1033,8 @@ push_expansion(const string &input, const CPPManifest *manifest, const YYLTYPE &
     infile->_col_number = loc.first_column;
     infile->_lock_position = true;
 
-    if (!manifest->_has_parameters) {
-      // If the manifest does not use arguments, then disallow recursive
-      // expansion.
-      infile->_ignore_manifest = true;
-    }
+    // Disallow recursive expansion while the replacement list is rescanned.
+    infile->_ignore_manifest = true;
 
     infile->_prev_last_c = _last_c;
     infile->_parent = _infile;
@@ -1099,12 +1096,13 @@ expand_manifests(string &expr, bool expand_undefined,
             manifest->extract_args(args, expr, p);
           }
 
-          // Don't consider this manifest when expanding the arguments or
-          // result, to prevent recursion.
+          // Don't consider this manifest when rescanning the result, to
+          // prevent recursion.  (The arguments were written outside of the
+          // replacement list, so they may still invoke the same manifest.)
           CPPManifest::Ignores nested_ignores(ignores);
           nested_ignores.insert(manifest);
 
-          string result = manifest->expand(args, expand_undefined, nested_ignores);
+          string result = manifest->expand(args, expand_undefined, ignores);
           expand_manifests(result, expand_undefined, nested_ignores);
 
           expr = expr.substr(0, q) + result + expr.substr(p);
@@ -2545,9 +2543,9 @@ expand_manifest(const CPPManifest *manifest, const YYLTYPE &loc) {
                           manifest->_variadic_param, args);
   }
 
-  // Keep track of the manifests we're supposed to ignore.
+  // Keep track of the manifests we're supposed to ignore while expanding the
+  // arguments: the ones whose replacement list we are currently reading.
   CPPManifest::Ignores ignores;
-  ignores.insert(manifest);
 
   InputFile *infile = _infile;
   while (infile != nullptr) {
